@@ -79,6 +79,10 @@ class NextState:
                                      st['rv']['k'] == 'agg' and st['rv'].get('variant') == 'None'):
             if blocks is None or i in blocks:
                 out.append((i, st))
+        # `expr?` returns None through FromResidual::from_residual
+        for c in b.calls_to('FromResidual::from_residual'):
+            if c.dest['l'] == 0 and not c.dest['p'] and (blocks is None or c.bb in blocks):
+                out.append((c.bb, c.t))
         return out
 
     def action_id(self, variant):
